@@ -21,10 +21,10 @@ LEVEL = 'exploration'
 TECHNIQUE = ('controlled schedule exploration of real threads with a deterministic sys.monitoring LINE scheduler; '
              'old/new decision oracle; rule-store read/mutation log for mechanism classification')
 RULE = ('schedules = plans over two threads X (reloading) and Y (deciding) on one enforcer: P1 `EDIT; X@k; Y; X`, '
-        'P2 `Y@k; EDIT; X; Y` for EVERY library line boundary k (exhaustive), P6 `Y@k; EDIT; X; Y` on a never-loaded enforcer, so that Y is inside its FIRST load at EVERY boundary k when the files change (exhaustive), P5 `Y@f; EDIT; X@k; Y; X` with Y stopped right after it fetched a check from the store and EVERY boundary k of the reload (exhaustive), P3 `EDIT; X@k1; Y@k2; X; Y` and '
+        'P2 `Y@k; EDIT; X; Y` for EVERY library line boundary k (exhaustive), P6 `Y@k; EDIT; X; Y` on a never-loaded enforcer, so that Y is inside its FIRST load at EVERY boundary k when the files change (exhaustive), P4 `Y@k2; EDIT; X@k1; Y; X` for the directory scenarios with EVERY k2 and every k1 at which shared state has just changed (exhaustive), P5 `Y@f; EDIT; X@k; Y; X` with Y stopped right after it fetched a check from the store and EVERY boundary k of the reload (exhaustive), P3 `EDIT; X@k1; Y@k2; X; Y` and '
         'P4 `Y@k2; EDIT; X@k1; Y; X` sampled (thorough: exhaustive around the state-changing boundaries); scenarios: '
         'main-file edit with directory overrides, directory edit, registered defaults with a permissive default rule, '
-        'deprecated default with old-name override, deprecated default OR-merged (enforce_new_defaults off), undefined name decided by the default rule, default rule overridden in a policy directory, no main file, rules differing only through rule: references, a main-file edit that drops a rule (referenced by another rule / referenced by nothing); every '
+        'deprecated default with old-name override, deprecated default OR-merged (enforce_new_defaults off), undefined name decided by the default rule, default rule overridden in a policy directory, no main file, rules differing only through rule: references, a main-file edit that drops a rule (referenced by another rule / referenced by nothing), a file added to a policy directory; every '
         'probe (name, roles) of the scenario for the deciding thread. Non-trivial = the plan pre-empts a thread strictly '
         'inside its load step; distinct = distinct (scenario, plan, probes).')
 ASSUMPTIONS = ['pre-emption points are library line boundaries; a switch inside a third-party call (YAML parsing, os.stat) '
@@ -36,11 +36,12 @@ LEVEL_TEXT = ('Every single pre-emption point of the reload (P1) and of the deci
               'Schedules at line granularity are finite per scenario, so the single-switch families are complete.')
 LEVEL_NOTE = 'trusted: the scheduler (semaphore hand-over, one runnable thread), the store log wrappers, fresh-enforcer oracle'
 PLAN = {'quick': dict(shards=16, wall=240), 'thorough': dict(shards=16, wall=520)}
-MIN = {'first_load_races': 1000, 'evaluations': 1000, 'preemptions_inside_reload': 500, 'store_reads_logged': 5000}
+MIN = {'targeted_double_preemptions': 500, 'first_load_races': 1000, 'evaluations': 1000, 'preemptions_inside_reload': 500, 'store_reads_logged': 5000}
 ANCHORS = ['oslo_policy.policy:Enforcer.load_rules', 'oslo_policy.policy:Enforcer._load_policy_file',
            'oslo_policy.policy:Enforcer.set_rules', 'oslo_policy.policy:Enforcer.enforce']
 REQUIRED_ANCHORS = ['oslo_policy.policy:Enforcer.enforce', 'oslo_policy.policy:Enforcer.load_rules']
 SAMPLES_P34 = {'quick': 500, 'thorough': 12000}
+P4_TARGETED = ('dir_file_added', 'dir_edit')
 
 SCEN = {
     'main_edit_dir_override': dict(
@@ -80,6 +81,9 @@ SCEN = {
     'main_drops_unreferenced_rule': dict(
         old={'policy.yaml': {'a': 'role:x', 'gone': 'role:g', 'b': 'role:w'}}, new={'policy.yaml': {'a': 'role:x', 'b': 'role:w or role:v'}},
         defaults=[['c', 'role:z', None]], probes=[['a', ['x']], ['gone', ['g']], ['b', ['v']], ['c', ['z']]]),
+    'dir_file_added': dict(
+        old={'policy.yaml': {'y': 'role:m', 'a': 'role:x'}, 'pd/1.yaml': {'a': 'role:x'}}, new={'pd/2.yaml': {'y': 'role:o', 'n': 'role:n'}},
+        defaults=[['c', 'role:z', None]], probes=[['y', ['o']], ['y', ['m']], ['n', ['n']], ['a', ['x']], ['c', ['z']]]),
     'no_main': dict(
         old={'pd/1.yaml': {'a': '@'}}, new={'pd/1.yaml': {'a': '@', 'b': '!'}},
         defaults=[['c', '@', None]], probes=[['a', []], ['c', []]]),
@@ -198,6 +202,33 @@ def layer_defs(sc):
     return defs
 
 
+def rebuild_name_sets(sc):
+    """Name sets of every store state the documented rebuild passes through, for the old and for the new files: the main
+    file (the empty store when there is none), then each policy.d file in sorted order, then - possibly interleaved with the
+    directory files when a second thread runs its own load step on the half-built store - the registered defaults that are
+    still absent, in registration order.  A store that a concurrent decision reads mid-reload is explained by the known
+    in-place rebuild only if its names form one of these sets."""
+    out = set()
+    dnames = [n for n, cs, dep in sc['defaults']]
+    for ver in ('old', 'new'):
+        files_now = dict(sc['old'])
+        if ver == 'new':
+            for f, c in sc['new'].items():
+                if c is None:
+                    files_now.pop(f, None)
+                else:
+                    files_now[f] = c
+        main = set(files_now.get('policy.yaml') or {})
+        dirfiles = [set(files_now[f] or {}) for f in sorted(files_now) if f != 'policy.yaml']
+        for j in range(len(dirfiles) + 1):
+            base = set(main)
+            for d in dirfiles[:j]:
+                base |= d
+            for m in range(len(dnames) + 1):
+                out.add(frozenset(base | set(dnames[:m])))
+    return out
+
+
 def pkey(p):
     return '%s/%s' % (p[0], ','.join(p[1]))
 
@@ -273,6 +304,12 @@ def classify(who, p, ex, defs, sc=None):
         shrunk = {i for i, op, _ in ex['mut'] if op == 'shrink'}
         if any(i in shrunk for i, _ in partial):
             return 'store-shrinks-in-place'
+        if sc is not None:
+            legit = rebuild_name_sets(sc)
+            odd = [sg for _, sg in partial if frozenset(k for k, _ in sg) not in legit]
+            if odd:
+                # e.g. an EMPTY store although a main policy file exists, or directory rules without the main file's
+                return 'store-state-outside-rebuild-sequence'
         return 'partial-rebuild-view'
     if ex['sig_old'] in sigs and ex['sig_new'] in sigs and ex['sig_old'] != ex['sig_new']:
         return 'old-new-reference-mix'
@@ -390,10 +427,12 @@ def state_change_points(name, nX):
         def state():
             # everything a concurrent decision (or its own load step) can read: the store object and its content,
             # which names came from files, the caches that decide whether anything is re-read
-            return (id(enf.rules), len(MUT), len(enf.rules), tuple(sorted(enf.file_rules)),
-                    tuple(sorted((k, v.get('mtime')) for k, v in enf._file_cache.items())),
-                    tuple(sorted((k, v.get('mtime')) for k, v in enf._policy_dir_mtimes.items())),
-                    str(getattr(enf.rules, 'default_rule', None)), enf._need_check_rule)
+            fc = getattr(enf, '_file_cache', None) or {}
+            dm = getattr(enf, '_policy_dir_mtimes', None) or {}
+            return (id(enf.rules), len(MUT), len(enf.rules), tuple(sorted(getattr(enf, 'file_rules', None) or ())),
+                    tuple(sorted((k, v.get('mtime') if isinstance(v, dict) else repr(v)) for k, v in fc.items())) if isinstance(fc, dict) else repr(fc),
+                    tuple(sorted((k, v.get('mtime') if isinstance(v, dict) else repr(v)) for k, v in dm.items())) if isinstance(dm, dict) else repr(dm),
+                    str(getattr(enf.rules, 'default_rule', None)), getattr(enf, '_need_check_rule', None))
         last = [state()]
 
         def on_line(code, line, _orig=r.on_line):
@@ -519,6 +558,33 @@ def run(ctx):
                 if not done5:
                     break
         ctx.stratum('P5', exhaustive=done5)
+        # ---- P4 targeted: the decider is stopped at EVERY boundary of its (preloaded) call, the files change, the reloader runs
+        # up to each boundary at which anything a concurrent load step can read has just changed, the decider finishes, the
+        # reloader finishes - for the directory scenarios, where a load step lists the directory on every call -------------------
+        done4 = done5
+        if done5:
+            for name in P4_TARGETED:
+                sc = SCEN[name]
+                nX, nY0, _ = calib[name]
+                pts = state_change_points(name, nX)
+                ctx.count('state_change_points.' + name, len(pts) if ctx.shard == 0 else 0)
+                pX, pY = sc['probes'][0], sc['probes'][0]
+                for k1 in pts:
+                    for k2 in range(1, nY0 + 1):
+                        idx += 1
+                        if not ctx.mine(idx):
+                            continue
+                        if (idx & 0x1f) == 0 and ctx.expired():
+                            done4 = False
+                            break
+                        check_plan(ctx, dict(family='P4', scenario=name, pX=pX, pY=pY,
+                                             plan=[['Y', k2], ['EDIT'], ['X', k1], ['Y', None], ['X', None]]))
+                        ctx.count('targeted_double_preemptions')
+                    if not done4:
+                        break
+                if not done4:
+                    break
+        ctx.stratum('P4-targeted', exhaustive=done4)
         # ---- P3, P4: two pre-emptions -------------------------------------------
         rnd = ctx.rnd
         if ctx.tier == 'thorough' and done:
